@@ -365,9 +365,17 @@ func TestVerifReplay(t *testing.T) {
 	ob, _ := json.Marshal(map[string]interface{}{"Replace": repl})
 	of := filepath.Join(tmp, "overlay.json")
 	os.WriteFile(of, ob, 0o644)
-	cmd := exec.Command("go", "test", "-tags=verif", "-mod=mod", "-vet=off", "-count=1", "-v", "-run", "^TestVerifReplay$", "-overlay", of, "-timeout", "120s", ".")
-	cmd.Dir = pkgDir
-	cmd.Env = append(os.Environ(), "VERIF_REPLAY="+replayPath, "GOFLAGS=-mod=mod", "GOPROXY=off", "GOSUMDB=off", "GOTOOLCHAIN=local")
+	bin := filepath.Join(tmp, "replay.test")
+	env := append(os.Environ(), "VERIF_REPLAY="+replayPath, "GOFLAGS=-mod=mod", "GOPROXY=off", "GOSUMDB=off", "GOTOOLCHAIN=local")
+	build := exec.Command("go", "test", "-c", "-tags=verif", "-mod=mod", "-vet=off", "-overlay", of, "-o", bin, pkgPath)
+	build.Dir = *flagRepo
+	build.Env = env
+	if bout, berr := build.CombinedOutput(); berr != nil {
+		return "error", "native build failed: " + string(bout)
+	}
+	cmd := exec.Command(bin, "-test.run", "^TestVerifReplay$", "-test.v", "-test.timeout", "120s")
+	cmd.Dir = tmp
+	cmd.Env = env
 	done := make(chan struct{})
 	var out []byte
 	go func() {
